@@ -14,7 +14,8 @@
 (***************************************************************************)
 EXTENDS Integers, Sequences, FiniteSets, TLC
 
-CONSTANTS Cfgs,     \* set of run configurations (records; see CfgOK)
+CONSTANTS Shards,   \* the configuration space is split into shards (TLC handles initial states on one
+          CfgsOf(_),\* thread, so Init only picks a shard and the Pick action picks the configuration)
           MaxInj    \* how many stop requests the environment may inject per run
 
 VARIABLES cfg,      \* the configuration of this run
@@ -167,15 +168,29 @@ RecIdx(c) == {i \in 1..NCb(c) : c.cbs[i].t = "rec"}
 -----------------------------------------------------------------------------
 (* Actions *)
 
-Init ==
-    /\ cfg \in Cfgs
+InitWith(c) ==
+    /\ cfg = c
     /\ pc = "Entry"
     /\ ep = -1 /\ b = -1 /\ net = 0
-    /\ stop = cfg.entryStop
+    /\ stop = c.entryStop
     /\ pver = 0 /\ sched = 0
     /\ perm = <<>> /\ negIdx = <<>>
     /\ hist = <<>> /\ inj = 0
-    /\ cbs = [i \in 1..NCb(cfg) |-> <<>>]
+    /\ cbs = [i \in 1..NCb(c) |-> <<>>]
+
+Init ==
+    /\ \E s \in Shards : cfg = [shard |-> s]
+    /\ pc = "Pick"
+    /\ ep = -1 /\ b = -1 /\ net = 0 /\ stop = FALSE /\ pver = 0 /\ sched = 0
+    /\ perm = <<>> /\ negIdx = <<>> /\ hist = <<>> /\ inj = 0 /\ cbs = <<>>
+
+\* the user constructs the run: configuration, callbacks, a stop possibly already requested
+Pick ==
+    /\ pc = "Pick"
+    /\ \E c \in CfgsOf(cfg.shard) :
+          /\ cfg' = c /\ stop' = c.entryStop /\ cbs' = [i \in 1..NCb(c) |-> <<>>]
+    /\ pc' = "Entry"
+    /\ UNCHANGED <<ep, b, net, pver, sched, perm, negIdx, hist, inj>>
 
 \* `if self.stop_training: return` -- nothing happens at all
 Entry ==
@@ -211,7 +226,7 @@ ShuffleWith(p, ni) ==
     /\ hist' = Append(hist, [k |-> "SH", ep |-> ep, perm |-> p, neg |-> ni])
     /\ pc' = "ES" /\ b' = 0
     /\ UNCHANGED <<cfg, ep, net, stop, pver, sched, inj, cbs>>
-Shuffle == \E p \in PermCands(cfg), ni \in NegCands(cfg) : ShuffleWith(p, ni)
+Shuffle == pc = "SH" /\ \E p \in PermCands(cfg), ni \in NegCands(cfg) : ShuffleWith(p, ni)
 
 EpochStart ==
     /\ pc = "ES"
@@ -285,7 +300,7 @@ TrainEnd ==
     /\ pc' = "Done"
     /\ UNCHANGED <<cfg, ep, b, net, pver, sched, perm, negIdx>>
 
-Next == \/ Entry \/ TrainStart \/ Shuffle \/ EpochStart \/ BatchStart \/ Compute
+Next == \/ Pick \/ Entry \/ TrainStart \/ Shuffle \/ EpochStart \/ BatchStart \/ Compute
         \/ ZeroGrad \/ Assign \/ OptStep \/ BatchEnd \/ SchedStep \/ EpochEnd \/ TrainEnd
 
 Spec == Init /\ [][Next]_vars /\ WF_vars(Next)
@@ -312,7 +327,7 @@ Follows(x, y) ==
       [] x.k = "TE" -> FALSE
 
 \* C12: event grammar (prefix-closed part)
-Protocol ==
+Protocol0 ==
     LET H == CbH IN
     /\ (Len(H) >= 1 => H[1].k = "TS")
     /\ \A i \in 1..(Len(H) - 1) : Follows(H[i], H[i + 1])
@@ -321,13 +336,13 @@ Protocol ==
     /\ \A i \in 1..Len(H) : H[i].k \in {"BS", "BE"} => H[i].b < NB(cfg)
 
 \* C12: parameters change only between a batch-start and its batch-end (and there exactly once)
-ParamsOnlyInBatch ==
+ParamsOnlyInBatch0 ==
     LET H == CbH IN
     \A i \in 1..(Len(H) - 1) :
         IF H[i].k = "BS" THEN H[i + 1].pv = H[i].pv + 1 ELSE H[i + 1].pv = H[i].pv
 
 \* every callback sees every event, in list order, before the next event is dispatched
-ListOrder ==
+ListOrder0 ==
     LET R == SelectSeq(hist, IsCb)
         n == Cardinality(RecIdx(cfg)) IN
     \A i \in 1..Len(R) : \A j \in 1..Len(R) :
@@ -345,7 +360,7 @@ StopAfter(H, i) == IF i < Len(H) THEN H[i + 1].stop ELSE stop
 FirstStop(H) == IF \E i \in 1..Len(H) : StopAfter(H, i)
                 THEN CHOOSE i \in 1..Len(H) : StopAfter(H, i) /\ \A j \in 1..(i - 1) : ~StopAfter(H, j)
                 ELSE 0
-StopHonoured ==
+StopHonoured0 ==
     LET H == CbH
         s == FirstStop(H)
         after(kind) == {j \in (s + 1)..Len(H) : H[j].k = kind} IN
@@ -358,7 +373,7 @@ StopHonoured ==
            [] H[s].k = "TE" -> TRUE
 
 \* C12: at the end of the run the history is complete
-Complete ==
+Complete0 ==
     pc = "Done" =>
       LET H == CbH IN
       IF cfg.entryStop THEN hist = <<>> /\ pver = 0 /\ stop
@@ -376,7 +391,7 @@ Complete ==
 
 \* C06: update protocol inside a batch and scheduler placement
 Internal == SelectSeq(hist, LAMBDA e : ~IsCb(e) \/ e.cb = First)
-StepProtocol ==
+StepProtocol0 ==
     LET H == SelectSeq(Internal, LAMBDA e : e.k \notin {"EV", "SV", "LG"}) IN
     \A i \in 1..(Len(H) - 1) :
       LET x == H[i] y == H[i + 1] IN
@@ -390,7 +405,7 @@ StepProtocol ==
         [] x.k = "EE" -> y.k \in {"SH", "TE"}
         [] x.k = "BE" -> IF y.k = "EE" THEN ~cfg.sched ELSE y.k \in {"BS", "SC"}
         [] OTHER -> TRUE
-SchedOncePerEpoch ==
+SchedOncePerEpoch0 ==
     LET H == CbH IN
     \* scheduler steps = number of epochs whose end has been reached (plus the one in flight after SC)
     /\ sched <= Cardinality({i \in 1..Len(H) : H[i].k = "ES"})
@@ -406,7 +421,7 @@ Count(s, x) == Cardinality({i \in 1..Len(s) : s[i] = x})
 RECURSIVE Flatten(_)
 Flatten(ss) == IF ss = <<>> THEN <<>> ELSE Head(ss) \o Flatten(Tail(ss))
 EpochBatches(p) == [bi \in 1..NB(cfg) |-> PosIdx(cfg, p, bi - 1)]
-EachRowOnce ==
+EachRowOnce0 ==
     \A s \in 1..Len(ShuffleEvents) :
       LET p  == ShuffleEvents[s].perm
           fl == Flatten(EpochBatches(p)) IN
@@ -418,7 +433,7 @@ EachRowOnce ==
 \* what was actually handed to compute_batch_gradients, against the draw of that epoch
 ShuffleBefore(i) == hist[CHOOSE j \in 1..i : hist[j].k = "SH" /\ \A l \in (j + 1)..i : hist[l].k # "SH"]
 Min(x, y) == IF x < y THEN x ELSE y
-OwnBasis ==
+OwnBasis0 ==
     \A i \in 1..Len(hist) : hist[i].k = "CG" =>
       LET e  == hist[i]
           p  == ShuffleBefore(i).perm
@@ -437,7 +452,7 @@ OwnBasis ==
 
 \* C17: records of periodic callbacks = executed epoch ends that are multiples of the period
 EEs == SelectSeq(CbH, LAMBDA e : e.k = "EE")
-OnSchedule ==
+OnSchedule0 ==
     \A i \in 1..NCb(cfg) :
       LET d == cfg.cbs[i]
           due == SelectSeq(EEs, LAMBDA e : e.ep % d.period = 0) IN
@@ -471,7 +486,7 @@ RuleAt(i, e) ==
     /\ e % d.period = 0
     /\ Len(r) >= d.patience + 1
     /\ Below(d, r)
-FirstHit ==
+FirstHit0 ==
     \A i \in 1..NCb(cfg) : cfg.cbs[i].t = "early" /\ inj = 0 =>
       /\ (cbs[i] # <<>> =>
             LET e == cbs[i][1] IN
@@ -484,9 +499,23 @@ FirstHit ==
             /\ Cardinality({j \in 1..NCb(cfg) : cfg.cbs[j].t = "early"}) = 1 =>
             \A x \in cfg.startEp..cfg.epochs : ~RuleAt(i, x))
 
-TypeOK ==
-    /\ pc \in {"Entry", "TS", "SH", "ES", "BS", "CG", "ZG", "AS", "OS", "BE", "SC", "EE", "TE", "Done"}
+TypeOK0 ==
+    /\ pc \in {"Pick", "Entry", "TS", "SH", "ES", "BS", "CG", "ZG", "AS", "OS", "BE", "SC", "EE", "TE", "Done"}
     /\ stop \in BOOLEAN /\ pver >= 0 /\ sched >= 0 /\ inj \in 0..MaxInj
     /\ CfgOK(cfg)
+
+Live == pc # "Pick"
+Protocol == Live => Protocol0
+ParamsOnlyInBatch == Live => ParamsOnlyInBatch0
+ListOrder == Live => ListOrder0
+StopHonoured == Live => StopHonoured0
+Complete == Live => Complete0
+StepProtocol == Live => StepProtocol0
+SchedOncePerEpoch == Live => SchedOncePerEpoch0
+EachRowOnce == Live => EachRowOnce0
+OwnBasis == Live => OwnBasis0
+OnSchedule == Live => OnSchedule0
+FirstHit == Live => FirstHit0
+TypeOK == Live => TypeOK0
 
 =============================================================================
